@@ -53,6 +53,8 @@ class Sym:
                 return self.read_key(base[1])
             if base[0] == "box":
                 return base[1]
+            if base[0] == "const":
+                return base          # `&*"literal"`: the literal itself
             return ("deref", base)
         if isinstance(last, str) and last.startswith("."):
             name = last[1:]
